@@ -36,7 +36,11 @@ def ref_ignored(rel, pattern):
     if pattern.startswith("**/") and pattern.endswith("/"):
         return pattern[3:-1] in parts[:-1]        # **/name/ = a directory of that name at any depth, the top level included
     if pattern.endswith("/"):
-        return pattern[:-1] in parts[:-1]
+        segs, dirs = pattern[:-1].split("/"), parts[:-1]
+        if len(segs) == 1:          # one name (possibly with a wildcard): a directory of that name at any depth
+            return any(fnmatch.fnmatch(x, segs[0]) for x in dirs)
+        # several segments: the directory path from the project root
+        return len(dirs) >= len(segs) and all(fnmatch.fnmatch(x, y) for x, y in zip(dirs, segs))
     if pattern.startswith("**/"):
         return fnmatch.fnmatch(parts[-1], pattern[3:]) or fnmatch.fnmatch(rel, pattern[3:]) or fnmatch.fnmatch(rel, pattern)
     return fnmatch.fnmatch(rel, pattern)
@@ -61,7 +65,7 @@ def make_h(tier):
         d2 = ctx.pick("dir2", ("sub", "build", "node_modules"))
         fname = ctx.pick("file", file_names)
         recursive = ctx.flag("recursive")
-        ig = ctx.pick("ignore_pattern", ("none", "dir1/", "build/", "*.ts", "dir1/file", "dir1/**", "**/file", "**/dir1/", "**/dir2/"))
+        ig = ctx.pick("ignore_pattern", ("none", "dir1/", "build/", "*.ts", "dir1/file", "dir1/**", "**/file", "**/dir1/", "**/dir2/", "wild-dir1/", "dir1/dir2/"))
         if ig not in ("none", "build/", "dir1/") and d1 not in ("pkg", "build", "buildx", "xbuild", "BUILD", "node_modules", ".hidden", "keep.py"):
             ctx.assume(False)
         src_kind = ctx.pick("ignore_source", (".thailintignore", "config-ignore")) if ig != "none" else "none"
@@ -78,7 +82,8 @@ def make_h(tier):
                 p.parent.mkdir(parents=True, exist_ok=True)
                 p.write_text(BODY if not rel.endswith(".ts") else BODY_TS)
             pattern = {"none": None, "dir1/": d1 + "/", "build/": "build/", "*.ts": "*.ts", "dir1/file": f"{d1}/{fname}",
-                       "dir1/**": d1 + "/**", "**/file": "**/" + fname, "**/dir1/": "**/" + d1 + "/", "**/dir2/": "**/" + d2 + "/"}[ig]
+                       "dir1/**": d1 + "/**", "**/file": "**/" + fname, "**/dir1/": "**/" + d1 + "/", "**/dir2/": "**/" + d2 + "/",
+                       "wild-dir1/": d1[:-1] + "*/", "dir1/dir2/": d1 + "/" + d2 + "/"}[ig]
             if pattern is not None:
                 if src_kind == ".thailintignore":
                     (root / ".thailintignore").write_text("# comment\n" + pattern + "\n")
